@@ -10,7 +10,9 @@ S->C:  every single-file scenario is run through CLI path, CLI stdin, sqlfluff.l
        real subprocesses for a sample; the `cfg` family puts rules / warnings / ignore in a nested .sqlfluff or
        in inline directives.  Compared: violation records (code, line, pos, description, warning, fix edits),
        fixed text, exit status.
-C->S:  OutcomeTrace with Prop = "C19" validates <CLI path observation, other observation> pairs on interned ids.
+C->S:  OutcomeTrace with Prop = "C19" validates <CLI path observation, other observation> pairs on interned ids;
+       the same validator also judges a corpus leg (vf/outcome_corpus.py): dialect fixture files, every dialect,
+       linted with all rules and fixed with a small rule set through path / stdin / sqlfluff.lint|fix.
 """
 from __future__ import annotations
 
@@ -26,7 +28,7 @@ def nontrivial(rec: dict, run: dict) -> bool:
 
 
 def run(tier: str, seed: int) -> int:
-    return S.check(PROP, tier, seed, nontrivial, RULE)
+    return S.check(PROP, tier, seed, nontrivial, RULE, refinement=[("EntryPointsAgree", ("cfg",), "F2/F3/F23")], corpus=True)
 
 
 def replay(path: str, tier: str, seed: int) -> int:
